@@ -92,14 +92,15 @@ def r1(ctx):
     ctx.ob(f"{PU}:urlparse-argument", e is not None and isinstance(e.args[0], App), f"urlparse({e.args[0]!r})" if e else "urlparse never called", loc)
 
 
-def _connect_interp(ctx, extra=None):
+def _connect_interp(ctx, extra=None, secure=None):
     idx = ctx.index
+    sec_val = Sym("u.secure", "bool") if secure is None else C(bool(secure))
 
     def pu(I, run, args, kwargs, node):
         run.effect("parse_url", args, node=node)
         if run.choose(2, I.locof(node), "parse_url refuses the url") == 1:
             raise RaiseSig(run.alloc(HObj("builtins.ValueError", {"args": Tup(())})), node)
-        return Tup((Sym("u.host", "str"), isym(run, "u.port", 1, 65535), Sym("u.resource", "str"), Sym("u.secure", "bool")))
+        return Tup((Sym("u.host", "str"), isym(run, "u.port", 1, 65535), Sym("u.resource", "str"), sec_val))
 
     def gpi(I, run, args, kwargs, node):
         run.effect("get_proxy_info", args, kwargs, node=node)
@@ -124,11 +125,11 @@ def _connect_interp(ctx, extra=None):
     return Interp(idx, Config(stubs=stubs))
 
 
-def connect_paths(ctx, proxy_kind="none", socket_given=False):
-    key = f"c18:connect:{proxy_kind}:{socket_given}"
+def connect_paths(ctx, proxy_kind="none", socket_given=False, secure=None):
+    key = f"c18:connect:{proxy_kind}:{socket_given}:{secure}"
     if key in ctx.cache:
         return ctx.cache[key]
-    I = _connect_interp(ctx)
+    I = _connect_interp(ctx, secure=secure)
 
     def body(run):
         opts = new_obj(run, "_socket:sock_opt", "sockopt", sockopt=Sym("o.sockopt"), sslopt=Sym("o.sslopt"), timeout=Sym("o.timeout"))
